@@ -329,6 +329,7 @@ package iso7816
 // IV: zero block (3DES) or E(KSenc, SSC) (AES).
 //@ spec func smIV(alg int, kenc seq, ssc seq) seq { alg == 2 ? blockE(2, kenc, ssc) : zeros(8) }
 
+//@ spec func smKeyLenOK(alg int, n int) bool { alg == 1 ? (n == 8 || n == 16 || n == 24) : (n == 16 || n == 24 || n == 32) }
 //@ func NewSecureMessaging
 //@   props C03 C10 C05
 //@   requires alg == 1 || alg == 2
@@ -336,6 +337,8 @@ package iso7816
 //@   ensures "valid-session": err == nil ==> validSM(sm) && beS(sm.ssc) == 0
 //@        && sm.ksEnc === ksEnc && sm.ksMac === ksMac && sm.alg == alg
 //@   ensures fresh(sm)
+//@   ensures "fails-only-on-bad-key-lengths": (err == nil) == (smKeyLenOK(alg, len(ksEnc)) && smKeyLenOK(alg, len(ksMac)))
+//@   ensures "own-counter-buffer": err == nil ==> fresh(sm.ssc)
 //@   ensures err != nil ==> sm == nil
 //@   assigns nothing
 //@   safety all
